@@ -219,7 +219,7 @@ func run(c *vh.Ctx) error {
 	probe("F-C07a", mForced, spikeScenario(144))
 	probe("F-C07c", mRefund, refundScenario())
 	// ---- generated chains -----------------------------------------------------------------------
-	nChains := c.N(45, 1500)
+	nChains := c.N(45, 450)
 	if c.Search {
 		nChains *= 2
 	}
@@ -235,7 +235,7 @@ func run(c *vh.Ctx) error {
 	for ci := 0; ci < nChains; ci++ {
 		r := c.R.Fork()
 		header, prof := genWorld(r)
-		prof.blocks = r.Range(40, c.N(190, 420))
+		prof.blocks = r.Range(40, c.N(190, 300))
 		s, _, err := newSession(header)
 		if err != nil {
 			return err
